@@ -19,47 +19,59 @@ Definition in_range_call (c : call) : bool :=
   | WadCPow x e | WadPow x e => r128 x && in_u32 e
   end.
 
-(* The property, as a function of the inputs only (None = the property says nothing). *)
-Definition spec_call (c : call) : option outcome :=
+(* The property, as a predicate on (inputs, observed outcome).  It is written from the property
+   text, independently of the model: exact rational arithmetic over unbounded Z. *)
+Definition is_some_out (o : outcome) : bool :=
+  match o with Ok (Some _) => true | _ => false end.
+Definition is_fail (o : outcome) : bool := match o with Fail => true | _ => false end.
+
+Definition spec_ok (c : call) (o : outcome) : bool :=
   match c with
-  | MulDiv128 rd x y d => Some (do v <- spec_plain128 rd x y d; Ok (Some v))
-  | CMulDiv128 rd x y d => Some (spec_checked128 rd x y d)
+  | MulDiv128 rd x y d => eqb_out (do v <- spec_plain128 rd x y d; Ok (Some v)) o
+  | CMulDiv128 rd x y d => eqb_out (spec_checked128 rd x y d) o
   | MulDiv256 rd x y d =>
-      if in_i256 (x * y) then Some (do v <- spec_plain256 rd x y d; Ok (Some v)) else None
+      (* d = 0 is an error whatever the product; exact whenever the product fits in 256 bits *)
+      if d =? 0 then is_fail o
+      else if in_i256 (x * y) then eqb_out (do v <- spec_plain256 rd x y d; Ok (Some v)) o
+      else true
   | CMulDiv256 rd x y d =>
-      if in_i256 (x * y) then
-        if d =? 0 then Some (Ok None)
-        else match fit256 (exact rd (x * y) d) with Some v => Some (Ok (Some v)) | None => None end
-      else None
-  | WadCMul a b => Some (Ok (fit128 (trunc_div (a * b) WAD)))
-  | WadCDiv a b => Some (Ok (if b =? 0 then None else fit128 (trunc_div (a * WAD) b)))
+      if d =? 0 then eqb_out (Ok None) o
+      else if in_i256 (x * y) then
+        match fit256 (exact rd (x * y) d) with
+        | Some v => eqb_out (Ok (Some v)) o
+        | None => negb (is_some_out o)      (* the quotient does not fit: no value may come back *)
+        end
+      else true
+  | WadCMul a b => eqb_out (Ok (fit128 (trunc_div (a * b) WAD))) o
+  | WadCDiv a b => eqb_out (Ok (if b =? 0 then None else fit128 (trunc_div (a * WAD) b))) o
   | WadFromRatio n d =>
-      Some (if d =? 0 then Fail else do v <- of_option (fit128 (trunc_div (n * WAD) d)); Ok (Some v))
-  | WadFromInteger _ | WadCPow _ _ | WadPow _ _ => None
+      eqb_out (if d =? 0 then Fail else do v <- of_option (fit128 (trunc_div (n * WAD) d)); Ok (Some v)) o
+  | WadFromInteger n => eqb_out (do v <- of_option (fit128 (n * WAD)); Ok (Some v)) o
+  | WadCPow _ _ => negb (is_fail o)         (* a checked variant reports failure as None, never by trapping *)
+  | WadPow _ _ => true                      (* constrained by the pairing clause below *)
   end.
 
-(* pow fails exactly when checked_pow returns None (and agrees otherwise):
-   the harness emits WadCPow x e immediately followed by WadPow x e. *)
+(* pow fails exactly when checked_pow returns None (and agrees otherwise).  The trace format
+   requires every WadPow x e to be IMMEDIATELY preceded by WadCPow x e; a WadPow that is not
+   is a malformed trace and counts as a monitor failure. *)
 Definition pow_pair_ok (prev : option obs) (cur : obs) : bool :=
   match cur with
   | (WadPow x e, o) =>
       match prev with
       | Some (WadCPow x' e', o') =>
-          if (x =? x') && (e =? e') then
-            match o', o with
-            | Ok None, Fail => true
-            | Ok (Some v'), Ok (Some v) => v =? v'
-            | _, _ => false
-            end
-          else true
-      | _ => true
+          (x =? x') && (e =? e') &&
+          match o', o with
+          | Ok None, Fail => true
+          | Ok (Some v'), Ok (Some v) => v =? v'
+          | _, _ => false
+          end
+      | _ => false
       end
   | _ => true
   end.
 
 Definition mon_step (prev : option obs) (cur : obs) : bool :=
-  (match spec_call (fst cur) with Some s => eqb_out s (snd cur) | None => true end)
-  && pow_pair_ok prev cur.
+  in_range_call (fst cur) && spec_ok (fst cur) (snd cur) && pow_pair_ok prev cur.
 
 Fixpoint mon_from (prev : option obs) (t : list obs) (i : N) : N :=
   match t with
@@ -74,3 +86,15 @@ Definition check_all (ts : list (list obs)) : list verdict := map check ts.
 
 (* the observations the model itself produces *)
 Definition model_obs (c : call) : obs := (c, run_call c).
+
+(* call lists in the trace format: in range, and every WadPow x e directly after WadCPow x e *)
+Fixpoint paired (prev : option call) (cs : list call) : bool :=
+  match cs with
+  | [] => true
+  | c :: r =>
+      (match c with
+       | WadPow x e => match prev with Some (WadCPow x' e') => (x =? x') && (e =? e') | _ => false end
+       | _ => true
+       end) && paired (Some c) r
+  end.
+Definition wf_calls (cs : list call) : bool := forallb in_range_call cs && paired None cs.
